@@ -67,7 +67,7 @@ LEVEL_TEXT = ('Theorems over a byte-level Gallina model of BundleV1/BundleIndexV
 LEVEL_NOTE = ('Trusted: Coq kernel, hand-written model Bundle.v, this harness and its independent reader.  Guards in the '
               'theorems (= what the formats can represent): tile size < 2^24 (v2) / < 2^32 (v1), data file < 2^40 bytes; '
               'beyond them an offset no longer fits its 40 bits (v2 adds it into the size bits, v1 truncates it) - no theorem or refutation witness is given for that range.  Not modelled: partial '
-              'effects of a v1 store that raises (v2: proved for every prefix of its writes), FileLock (C07), write_atomic / crash states (C06), permissions, dry_run, '
+              'effects of a store that raises beyond the states of v*_failed_store_leaves_valid_bundle, FileLock (C07), write_atomic / crash states (C06), permissions, dry_run, '
               'the float rounding of the threshold test (theorems hold for ANY skip decision; the correspondence uses '
               'thresholds away from rounding boundaries), stale tmp_defrag files of an interrupted earlier defrag run, '
               'bundle files whose names the glob R????C????.bundle does not match (column/row >= 65536 are never '
@@ -1342,7 +1342,7 @@ def run(ctx):
     for i, (ops, th) in enumerate(fixed_cases()):
         for version in (1, 2):
             add(version, ops, th, 'fixed-%d' % i, [(12, 99), (99, 12)])
-    nrand = ctx.n(26, 150)
+    nrand = ctx.n(18, 150)
     for i in range(nrand):
         for version in (1, 2):
             nops = ctx.rng.choice([2, 4, 6, 10, 14, 20] if ctx.quick else [2, 4, 6, 10, 14, 20, 30, 45])
@@ -1353,7 +1353,7 @@ def run(ctx):
     for i, n in enumerate(SPARSE_SIZES if ctx.quick else SPARSE_SIZES * 3):
         for version in (1, 2):
             add(version, gen_sparse_history(ctx, [n]), None, 'sparse-%d' % i)
-    for i in range(ctx.n(4, 30)):
+    for i in range(ctx.n(2, 30)):
         for version in (1, 2):
             add(version, gen_sparse_history(ctx), None, 'sparse-random-%d' % i)
 
@@ -1378,8 +1378,8 @@ def run(ctx):
     for version in (1, 2):
         ctx.corr_check('v%d_sparse_history_defrag' % version, 'Bytes Gen_compact Gen_compact_fmt Bundle',
                        'v%d_scase' % version, terms[(version, 's')], 'v%d_scase_ok' % version,
-                       (lambda v: (lambda i: descr[(v, 's')][i]))(version), shard=3)
+                       (lambda v: (lambda i: descr[(v, 's')][i]))(version), shard=5)
     for version in (1, 2):
         ctx.corr_check('v%d_history_defrag' % version, 'Bytes Gen_compact Bundle', 'v%d_case' % version,
                        terms[version], 'v%d_case_ok' % version,
-                       (lambda v: (lambda i: descr[v][i]))(version), shard=3)
+                       (lambda v: (lambda i: descr[v][i]))(version), shard=5)
